@@ -1017,6 +1017,53 @@ def tuple_field_of_loop(fa, S, op, call_block):
     return None
 
 
+def split_all(ctx):
+    """SPLITALL (C19): the `split` tool hands every sentence of the corpus to exactly one of its
+    three outputs. Where it pairs a *shared* iterator over the corpus with a counter, the counter
+    is the first member of the `zip`: `Zip` asks its first member first, so with the shared
+    iterator in front one sentence is taken and dropped each time the counter runs out."""
+    F = ctx.facts("A")
+    try:
+        sb = F.crate("split-bin")
+    except Exception:
+        raise EngineError("SPLITALL: the split tool is not part of the build")
+    SE = Effects(sb)
+    mp = [p for p in sb.fns if p.endswith("::main") and sb.fns[p].body]
+    if not mp:
+        raise EngineError("SPLITALL: anchor lost: main of the split tool")
+    fa = SE.fa(mp[0])
+    n = 0
+    writes = [b for b, t in fa.calls() if (callee_of(t) or {}).get("name") == "write" and "Example" in " ".join(callee_paths(t))]
+    ctx.floor("SPLITALL", "Example::write calls in the split tool", len(writes), 1)
+
+    def is_range(op):
+        o = fa.origin(op)
+        return o[0] == "rv" and o[1]["k"] == "agg" and str(o[1].get("adt", "")).endswith(("ops::Range", "Range::Range", "RangeInclusive"))
+
+    def is_shared_iter(op):
+        # `&mut it` / `it.by_ref()`: a mutable borrow of an iterator that lives on
+        o = fa.origin(op)
+        if o[0] == "call" and (callee_of(o[2]) or {}).get("name") == "by_ref":
+            return True
+        pl = op_place(op)
+        d = fa.single_def(pl["l"]) if pl is not None and not pl["p"] else None
+        return bool(d and d[2] == "assign" and d[3]["k"] == "ref" and d[3].get("bk") == "mut")
+    for b, t in fa.calls():
+        if (callee_of(t) or {}).get("name") != "zip" or len(t["args"]) != 2:
+            continue
+        if is_shared_iter(t["args"][0]) and is_range(t["args"][1]):
+            n += 1
+            ctx.ob("SPLITALL", "%s|counter-first|%d" % (mp[0], n), False, fa.loc(b),
+                   "the shared corpus iterator is the first member of a zip with a counter: when the counter "
+                   "runs out the iterator has already given up one more sentence, which is written nowhere")
+        elif is_range(t["args"][0]) and is_shared_iter(t["args"][1]):
+            n += 1
+            ctx.ob("SPLITALL", "%s|counter-first|%d" % (mp[0], n), True, fa.loc(b),
+                   "the counter is asked first: no sentence is taken from the shared iterator once the "
+                   "counter has run out")
+    ctx.count("SPLITALL", "zips of a counter with the shared corpus iterator", n)
+
+
 def csvrow(ctx):
     """CSVROW (C17, C18, C20, C07, C16): utils::parse_csv_row turns a feature string (a CSV row)
     into its cells - the column numbers of templates and rewrite rules, and the feature text of
